@@ -6,6 +6,7 @@ import (
 	"reflect"
 	"sort"
 	"strings"
+	"time"
 
 	"verifmc/engine"
 	"verifmc/mapctl"
@@ -119,6 +120,11 @@ func (e *c13Env) context(data int) *plush.Context {
 	c.Set("m3", map[string]int{"a": 1, "b": 2, "c": 3})
 	c.Set("d", data)
 	c.Set("animal", c13Animals[data%2])
+	// a time value; only the odd data sets choose a format of their own for it
+	c.Set("when", time.Date(2021, 3, 4, 5, 6, 7, 0, time.UTC))
+	if data%2 == 1 {
+		c.Set("TIME_FORMAT", "2006/01/02")
+	}
 	pf := c.Value("partialFeeder").(func(string) (string, error))
 	c.Set("partialFeeder", func(name string) (string, error) {
 		switch name {
@@ -149,7 +155,10 @@ var c13Animals = []interface{}{c13Dog{}, c13Cat{}}
 
 // c13Family: hash literals with side-effecting values and duplicate keys, map loops, data maps.
 func c13Family() []string {
-	var out []string
+	out := []string{
+		// the printed form of a time depends on the context's TIME_FORMAT only, never on earlier renders
+		`<%= when %>;<%= [when][0] %>`,
+	}
 	keys := []string{`"a"`, `"b"`, "c", `"a"`} // identifiers, strings, a duplicate
 	for n := 1; n <= 4; n++ {
 		var ps []string
@@ -232,7 +241,7 @@ func init() {
 			return s
 		},
 		Run:  c13Run,
-		Rule: "programs: a 35-template corpus covering every construct + a family of hash literals (1..4 entries, identifier/string/duplicate keys, side-effecting values), map loops, data maps, method calls on receivers of two dynamic types, empty array/hash literals that are kept and written to, failing templates and templates that do not parse. (paths) every program x 2 data sets: fresh parse, 3 repeated executions of one parsed template, Clone, cache cold, cache warm, cache off again — all (out, err, side-effect log) equal; deep structural hash (reflection over every field, cycle-safe) of the parsed program equal before and after every execution. (env) every map-iteration call made during an execution is an environment choice point (runtime overlay): all single deviations (two in thorough) from the default order give the same (out, err, log); for-over-map output is compared as a multiset. (hist) explicit enumeration of histories over {fresh parse+exec, exec of a long-lived template, Clone+exec, Render through the cache, toggle CacheEnabled, CacheSet} x 6 templates (a partial whose feeder text depends on the context, ok with an empty hash literal that is written to, failing inside a block on line 3, failing at top level, method call, one that does not parse) x 2 data sets, from a cold and a warm cache; after every operation the result equals the pristine reference for (text, data), every live template's program hash is unchanged and a cached template was parsed from its key. Non-trivial: histories with >=2 operations / programs with a map or side effect.",
+		Rule: "programs: a 35-template corpus covering every construct + a family of hash literals (1..4 entries, identifier/string/duplicate keys, side-effecting values), map loops, data maps, method calls on receivers of two dynamic types, a time value printed with and without a TIME_FORMAT in the context, empty array/hash literals that are kept and written to, failing templates and templates that do not parse. (paths) every program x 2 data sets: fresh parse, 3 repeated executions of one parsed template, Clone, cache cold, cache warm, cache off again — all (out, err, side-effect log) equal; deep structural hash (reflection over every field, cycle-safe) of the parsed program equal before and after every execution. (env) every map-iteration call made during an execution is an environment choice point (runtime overlay): all single deviations (two in thorough) from the default order give the same (out, err, log); for-over-map output is compared as a multiset. (hist) explicit enumeration of histories over {fresh parse+exec, exec of a long-lived template, Clone+exec, Render through the cache, toggle CacheEnabled, CacheSet} x 6 templates (a partial whose feeder text depends on the context, ok with an empty hash literal that is written to, failing inside a block on line 3, failing at top level, method call, one that does not parse) x 2 data sets, from a cold and a warm cache; after every operation the result equals the pristine reference for (text, data), every live template's program hash is unchanged and a cached template was parsed from its key. Non-trivial: histories with >=2 operations / programs with a map or side effect.",
 		Bound: func(th bool) string {
 			if th {
 				return "histories of length <=4 over the full 56-operation alphabet; all pairs of map-order deviations"
@@ -248,7 +257,7 @@ var c13Templates = []string{
 	`<%= d %>:<%= {"a": ev(1), "b": ev(2)}["a"] %><% let h = {} %><% h["k"] = d %><%= len(h) %>`,
 	"x\n<%= if (true) { %>\n<%= d / 0 %><% } %>",
 	`<%= nope %>`,
-	`<%= animal.Name() %>`,
+	`<%= animal.Name() %> <%= when %>`,
 	"ok <%= d %>\n<% let = 3 %> tail <%= 1 + %>", // does not parse
 	`<%= partial("pdyn") %>|<%= partial("pd", {"a": d, "b": 2, "c": 3}) %>`,
 }
